@@ -1290,7 +1290,7 @@ class Interp:
             if cname.startswith("std::"):
                 return self.std_member(n, cname, base, args, env, want_ref)
             obj = self.ev(base, env) if me.get("arrow") else self.lv(base, env).get()
-            fn = self.resolve_virtual(callee, obj)
+            fn = self.prog.by_key.get(callee) if me.get("qual") else self.resolve_virtual(callee, obj)
             if isinstance(obj, Closure):
                 return self.call_closure(obj, [self.bind_ref(a, env) for a in args])
             if fn is None or fn.body is None:
@@ -1459,6 +1459,14 @@ class Interp:
             if meth == "empty":
                 return not recv.d
         if isinstance(recv, SetVal):
+            if meth in ("begin", "cbegin", "end", "cend"):
+                # iteration over a snapshot in key order (primitive keys sorted; record keys in insertion-stable repr order)
+                if getattr(recv, "_snap", None) is None or len(recv._snap.items) != len(recv.items):
+                    try:
+                        recv._snap = Vec(sorted(recv.items))
+                    except TypeError:
+                        recv._snap = Vec(sorted(recv.items, key=repr))
+                return Iter(recv._snap, 0 if meth in ("begin", "cbegin") else len(recv._snap.items))
             if meth == "clear":
                 recv.items.clear()
                 return None
